@@ -39,7 +39,9 @@ PROP = dict(
                  "the doc comments of registry.go/transaction.go, not from the matching code",
                  "requests of one history are sequential (state lock held at the system level)",
                  "readDatabag hands out a fresh copy of the committed databag on every call, as the state-backed getter of registrystate does",
-                 "known findings F-C30-2 (Unset below a non-map poisons the transaction) and F-C30-3 (open placeholders keyed in storage order) end the case they occur in"],
+                 "known findings F-C30-2 (Unset below a non-map poisons the transaction) and F-C30-3 (open placeholders keyed in storage order) end the case they occur in",
+                 "a Set whose unused part of the value contains an empty map (F-C30-5, fixed eb9acf5: View.Set used to spin forever) is called on a goroutine "
+                 "with a 20 s liveness deadline; this is the only use of wall-clock time and only applies to that class (about 1 % of the cases)"],
     engines=[
         gt("tx", "registry", "TestVerifC30Tx", dict(checks=2500, shards=2), dict(checks=30000, shards=8)),
         gt("bag", "registry", "TestVerifC30Bag", dict(checks=3000, shards=1), dict(checks=30000, shards=4)),
